@@ -29,9 +29,10 @@ func (l *cancunLogger) CaptureTxStart(uint64) {}
 func (l *cancunLogger) CaptureTxEnd(uint64)   {}
 func (l *cancunLogger) CaptureStart(*vm.EVM, common.Address, common.Address, bool, []byte, uint64, *big.Int) {
 }
-func (l *cancunLogger) CaptureEnd([]byte, uint64, error)                                           {}
-func (l *cancunLogger) CaptureEnter(vm.OpCode, common.Address, common.Address, []byte, uint64, *big.Int) {}
-func (l *cancunLogger) CaptureExit([]byte, uint64, error)                                          {}
+func (l *cancunLogger) CaptureEnd([]byte, uint64, error) {}
+func (l *cancunLogger) CaptureEnter(vm.OpCode, common.Address, common.Address, []byte, uint64, *big.Int) {
+}
+func (l *cancunLogger) CaptureExit([]byte, uint64, error) {}
 func (l *cancunLogger) CaptureFault(uint64, vm.OpCode, uint64, uint64, *vm.ScopeContext, int, error) {
 }
 func (l *cancunLogger) CaptureState(pc uint64, op vm.OpCode, gas, cost uint64, scope *vm.ScopeContext, rData []byte, depth int, err error) {
@@ -58,12 +59,12 @@ func mcopyOperand(r *Rng, memLen int) *uint256.Int {
 }
 
 type tnode struct {
-	kind           string // S, L, C
-	k, v           uint64
-	ckind          byte
-	target         common.Address
-	body           []*tnode
-	reverts        bool
+	kind    string // S, L, C
+	k, v    uint64
+	ckind   byte
+	target  common.Address
+	body    []*tnode
+	reverts bool
 }
 
 var tkindName = map[byte]string{opCALL: "call", opDELEGATECALL: "delegate", opCALLCODE: "callcode", opSTATICCALL: "static"}
@@ -74,7 +75,14 @@ func genTOps(r *Rng, depth int, next *int) []*tnode {
 	for i := 0; i < n; i++ {
 		switch k := r.Intn(100); {
 		case k < 35:
-			out = append(out, &tnode{kind: "S", k: uint64(r.Intn(3)), v: uint64(1 + r.Intn(250))})
+			// values: mostly fresh, sometimes 0 (what an untouched slot holds) or a small value likely to be the current one
+			v := uint64(1 + r.Intn(250))
+			if r.Chance(20) {
+				v = 0
+			} else if r.Chance(25) {
+				v = uint64(1 + r.Intn(2))
+			}
+			out = append(out, &tnode{kind: "S", k: uint64(r.Intn(3)), v: v})
 		case k < 70 || depth >= 3:
 			out = append(out, &tnode{kind: "L", k: uint64(r.Intn(3))})
 		default:
@@ -240,6 +248,25 @@ func driveCancun(seed uint64, n int, size int, em *Emitter) {
 			st = "halt "
 		}
 		em.Op("C15,C04", fmt.Sprintf("TX %s %x %s", hexAddr(contractAddr), len(ops), tokensOf(ops)), st+listStr(obs))
+		// C15 specification (EIP-1153): a TSTORE executed in a static context — the frame or an ancestor was entered by STATICCALL —
+		// halts that frame there, whatever value it writes
+		{
+			static := map[int]bool{1: false}
+			verdict := "ok"
+			for k, s := range lg.steps {
+				switch s.op {
+				case opCALL, opCALLCODE, opDELEGATECALL:
+					static[s.depth+1] = static[s.depth]
+				case opSTATICCALL:
+					static[s.depth+1] = true
+				case opTSTORE:
+					if static[s.depth] && k+1 < len(lg.steps) && lg.steps[k+1].depth >= s.depth && verdict == "ok" {
+						verdict = fmt.Sprintf("tstore_of_key_%s_ran_in_static_frame_at_depth_%d", s.top, s.depth)
+					}
+				}
+			}
+			em.Op("C15", "S tstore-static", verdict)
+		}
 		em.Count(fmt.Sprintf("transient:subframes=%d", min(next, 4)))
 		// second transaction on the same state database: Prepare empties transient storage
 		if i%4 == 0 {
